@@ -637,6 +637,13 @@ func (r *Resolver) groupLookup(ctx context.Context, rs *resolveState, req *dns.M
 			// reference and can mutate the ID in place.
 			if shared {
 				resp = resp.Copy()
+				// Lookups are shared under a case-insensitive key, so the
+				// response may echo another caller's spelling of the name.
+				// Each caller gets its own question back (a 0x20-validating
+				// client would otherwise discard the reply).
+				if len(resp.Question) > 0 && len(req.Question) > 0 {
+					resp.Question[0].Name = req.Question[0].Name
+				}
 			}
 			resp.Id = req.Id
 		}
